@@ -1032,6 +1032,7 @@ func c19RunLine(c *Ctx, f []string) bool {
 func runC19(c *Ctx) {
 	defer c19Uninstall()
 	c19Corpus(c)
+	c19Delivered(c) // settings -> Config (-> JSON -> Config) -> Profile: the configured rule / kill date are the delivered ones (c19_s3.go)
 
 	// A. work-hours rule x instants (boundaries of every day of a week, several zones / dates)
 	c.Cases("work", c.N(700, 9000), func(r *Rng, i int) {
